@@ -26,6 +26,7 @@ class CbmcOb(Ob):
         s.replay_link = tuple(replay_link); s.replay_files = replay_files; s.replay_defines = tuple(replay_defines)
         s.custom_replay = custom_replay; s.witness = witness; s.bounds = bounds; s.engine = engine; s.mode = mode; s.partial_loops = partial_loops
         s.fallback = None   # obligation in a more precise mode, decided when a counterexample of this (abstracted) one does not reproduce natively
+        s.fallback_factory = None   # or a function building it on demand
 
 
 class SymOb(Ob):
@@ -91,6 +92,9 @@ class Check:
                     res['verdict'] = 'error'; res['detail'] = 'unwinding assertion failed: --unwind %s too small' % ob.unwind
                 else:
                     res.update(s.replay_cbmc(ob, r))
+                    if res['verdict'] == 'unconfirmed' and ob.fallback is None and ob.fallback_factory is not None:
+                        try: ob.fallback = ob.fallback_factory()
+                        except Exception as e: res['fallback_error'] = str(e)[-300:]
                     if res['verdict'] == 'unconfirmed' and ob.fallback is not None:
                         # counterexample of the uninterpreted-function abstraction is not a behaviour of the real code: decide the precise encoding instead
                         res2 = s.run_cbmc_ob(ob.fallback)
